@@ -63,6 +63,15 @@ fn crate_source(items: &[String]) -> String {
 fn cargo_cmd(dir: &Path, target: &Path, shim: Option<(&Path, &RunCfg)>) -> Command {
     let mut c = Command::new("cargo");
     c.current_dir(dir);
+    // a controlled environment block: only what cargo and rustup need to run at all; the
+    // ambient variables of whoever started the check (RUST_BACKTRACE, RUST_LOG, ...) must
+    // not decide what the reference run looks like
+    c.env_clear();
+    for k in ["PATH", "HOME", "CARGO_HOME", "RUSTUP_HOME", "RUSTUP_TOOLCHAIN", "TMPDIR", "LD_LIBRARY_PATH"] {
+        if let Ok(v) = std::env::var(k) {
+            c.env(k, v);
+        }
+    }
     c.env("CARGO_NET_OFFLINE", "true");
     c.env("CARGO_TARGET_DIR", target);
     c.env("RUSTC_BOOTSTRAP", "1");
@@ -139,6 +148,8 @@ fn setup_crate(dir: &Path, repo: &Path, backend: Backend, items: &[String]) -> R
 pub struct Selected {
     pub rej: Vec<String>,
     pub acc: Vec<String>,
+    /// inputs on which the expander panics (rustc reports "proc-macro derive panicked")
+    pub pan: Vec<String>,
     pub candidates: usize,
 }
 
@@ -163,17 +174,20 @@ pub fn select_items(cfg: &Cfg, corpus: &Corpus) -> Result<Selected, String> {
     let log = run_host(&env, Backend::Syn1, Build::Plain, &texts, &h).map_err(|e| e.0)?;
     let mut rej = Vec::new();
     let mut acc = Vec::new();
+    let mut pan = Vec::new();
     for o in &log.obs {
         let t = &texts[o.input as usize].1;
         if o.verdict == "ERR" && order_sensitive(o) && rej.len() < 60 {
             rej.push(t.clone());
+        } else if o.verdict == "PANIC" && pan.len() < 12 {
+            pan.push(t.clone());
         } else if o.verdict == "OK" && acc.len() < 80 && syn::parse_str::<syn::File>(&o.text).is_ok() {
             // (only expansions that are themselves parseable Rust: rustc stops at the first
             // unparsable derive output and would print nothing)
             acc.push(t.clone());
         }
     }
-    Ok(Selected { rej, acc, candidates: n })
+    Ok(Selected { rej, acc, pan, candidates: n })
 }
 
 pub fn plan_runs(seed: u64, n: usize) -> Vec<RunCfg> {
@@ -220,7 +234,10 @@ pub fn run(cfg: &Cfg, corpus: &Corpus) -> Result<TierResult, String> {
     // quick: one back-end, chosen by the seed; thorough: both
     let backends: Vec<Backend> = if thorough { vec![Backend::Syn1, Backend::Syn2] } else if cfg.seed % 2 == 0 { vec![Backend::Syn1] } else { vec![Backend::Syn2] };
     for backend in backends {
-        for (kind, items) in [("rej", &sel.rej), ("acc", &sel.acc)] {
+        // the panicking inputs ride in the `rej` crate: both only produce diagnostics
+        let mut rej_items = sel.rej.clone();
+        rej_items.extend(sel.pan.iter().cloned());
+        for (kind, items) in [("rej", &rej_items), ("acc", &sel.acc)] {
             if items.is_empty() {
                 continue;
             }
@@ -265,7 +282,7 @@ pub fn run(cfg: &Cfg, corpus: &Corpus) -> Result<TierResult, String> {
         json: json!({
             "ran": true, "cargo_invocations_under_shim": compiles, "entropy_seeds": runs.iter().map(|r| r.entropy_seed).collect::<Vec<_>>(),
             "runs_with_noisy_env": runs.iter().filter(|r| !r.extra_env.is_empty()).count(),
-            "candidates_classified": sel.candidates, "rejected_items": sel.rej.len(), "accepted_items": sel.acc.len(),
+            "candidates_classified": sel.candidates, "rejected_items": sel.rej.len(), "panicking_items": sel.pan.len(), "accepted_items": sel.acc.len(),
             "crates": summary, "wall_s": t0.elapsed().as_secs_f64(),
         }),
         violation,
